@@ -85,3 +85,13 @@ claimed["C18"] = dict(engine="engine-S", category="model_checking",
   text="~200 corrupted inputs (each listed corruption at the first/middle/last record of each input file of each command) are each explored under ALL interleavings of the reader/worker/writer/error-channel pipeline with 2 (thorough also 3) workers: every execution must end in a returned error (or a panic, i.e. exit 2), never in returned(nil) or a deadlock (an exact outcome of the scheduler, not a time-out); every item and the command-line-only ones (unknown annotation suffix, window 0, missing files) then go through the real binary, whose exit status must be non-zero within 30 s",
   note="trusted: scheduler shim; panics count as refusal here (C16 judges panics on FASTA input); valid-but-empty inputs (SAM header without alignments, target CSV with header only) are not corruptions",
   design_ref="DESIGN.md 3 (C18)")
+claimed["C08"] = dict(engine="engine-I", category="model_checking",
+  technique="layered bounded-exhaustive input/option enumeration on the real entry point vs. a transcription of the statement",
+  text="classification of all 65 536 (query,target) pairs over {A,C,G,N}^4 under pair/target thresholds and --ignore; the fill/balance arithmetic over every supply vector in {0..3}^4 x every requested size vector in {0..2}^4 (thorough {0..3}^4) and --size-total 1..8 x --no-fill; ranking of every file of <=4 candidates (distance x ambiguity, every file order) in each bin under size and distance limits and --dist-push 1,2; 13-30 tied candidates; list and --table forms",
+  note="trusted: ref_updown.go; round-robin fill order same,up,down,side and floor(total/4) split taken from the documented behaviour; order inside `same` under --dist-push not judged",
+  design_ref="DESIGN.md 3 (C08)")
+claimed["C09"] = dict(engine="engine-I", category="model_checking",
+  technique="bounded-exhaustive relational check between input formats on the real code + stateless model checking of the per-query result hand-off",
+  text="every query set (1-2 of 5, all 3-sets of 3) x every target file (1-3 of 7) x 8 option sets x list/table: fasta/fasta, csv/csv, csv/fasta and fasta/csv outputs byte-identical, one row per query in order; and with 2 queries every interleaving (3 queries: bounded preemptions) of the csv-involving pipelines must reproduce the fasta/fasta output",
+  note="trusted: `updown list` as the producer of the CSV form; the scheduler shim",
+  design_ref="DESIGN.md 3 (C09)")
